@@ -546,6 +546,14 @@ class C05(Prop):
                     suffix = {"production": "", "nightly": ".n", "test": ".t", "ci": ".ci", "development": ".d"}.get(c["type"], "")
                     if not _re.search(r"\d{8}(\.[a-z]+)?\.\d+$", str(c["id"])) or not str(c["id"]).endswith("%s%s.%s" % (c["date"], suffix, c["respin"])):
                         c["id"] = "%s-%s-%s%s.%s" % (spec["release"]["short"], spec["release"]["version"], c["date"], suffix, c["respin"])
+                if L.vt(ver) < (0, 3):
+                    # "date derivable only from the id": a date the id decoder cannot give back (the shared pool has `20200101\n`,
+                    # accepted by `$` - F15) is not content of a < 0.3 document; the id is rebuilt around the clean date
+                    c = spec["compose"]
+                    clean = "".join(ch for ch in c["date"] if ch.isdigit())[:8].rjust(8, "0")
+                    if clean != c["date"]:
+                        c["id"] = c["id"].replace(c["date"], clean)
+                        c["date"] = clean
                 if L.vt(ver) < (0, 3) and cnt["ci"] % 2:
                     # respin boundaries of the id decoder: one digit, two digits, 10^7 - 1 (last good), 10^7 (F10)
                     r = RESPINS[(cnt["ci"] // 2) % len(RESPINS)]
@@ -760,8 +768,46 @@ class C05(Prop):
         return None
 
     # ---------------------------------------------------------------- expectation (spec side) and oracle
+    def baseline_accepted(self, case):
+        """is the CURRENT-format equivalent of the same content accepted by the library under test?  The borrowed content
+        generators also produce values the library refuses in every format (hostile ids, versions with line feeds, ...: the
+        corrupting streams of C01-C04/C06/C07); acceptance of the older document is demanded only for content that is valid
+        in the first place."""
+        a, op = case["args"], case["op"]
+        if op not in ("ci", "img", "rpms", "ti"):
+            return True
+        if not hasattr(self, "_baseline"):
+            self._baseline = {}
+        k = checklib.key_of(case)
+        if k not in self._baseline:
+            if len(self._baseline) > 20000:
+                self._baseline.clear()
+            self._baseline[k] = self._baseline_accepted(case)
+        return self._baseline[k]
+
+    def _baseline_accepted(self, case):
+        a, op = case["args"], case["op"]
+        c = copy.deepcopy(case)
+        c["args"]["version"] = self.cur()
+        c["args"]["opts"] = {"bool_spelling": 0} if op == "ti" else {}
+        if op == "rpms":
+            c["args"]["upper"] = c["args"]["suffix"] = False
+        try:
+            fmt, text, _ = self.document(c)
+            x = FMTS[fmt].new()
+            x.loads(text)
+            return True
+        except Exception:  # noqa
+            return False
+
     def expectation(self, case):
         """-> (expected snapshot or None, must_load: bool)"""
+        exp, must = self._expectation(case)
+        if must and not self.baseline_accepted(case):
+            return None, False
+        return exp, must
+
+    def _expectation(self, case):
         a, op = case["args"], case["op"]
         cur = self.cur()
         if op == "ci":
@@ -808,6 +854,8 @@ class C05(Prop):
             spec = a["spec"]
             if not L.ti_src_representable(spec, a["version"]):
                 return None, False
+            if L.ti_chain_ambiguous(spec, a["version"]):
+                return None, True                       # loads, but the old lookup chain lets a variant inherit another one's paths
             if (a.get("opts") or {}).get("no_tree") and L.vt(a["version"]) > (0, 3):
                 e = TF.norm_spec(spec)
                 e["variants"] = []
@@ -957,8 +1005,10 @@ class C05(Prop):
         a = case["args"]
         fmt = a.get("fmt") or case["op"]
         key = "%s:%s" % (case["op"] if case["op"] != "fixture" else "fixture-" + fmt, a.get("version", ""))
-        d = dist.setdefault(key, {"cases": 0, "loaded": 0, "written": 0, "refused": {}})
+        d = dist.setdefault(key, {"cases": 0, "loaded": 0, "written": 0, "refused": {}, "content_invalid_in_current_format": 0})
         d["cases"] += 1
+        if not self.baseline_accepted(case):
+            d["content_invalid_in_current_format"] += 1
         load = real_out.get("load") or {}
         if "ok" in load:
             d["loaded"] += 1
